@@ -1,6 +1,7 @@
 package spine
 
 import (
+	"errors"
 	"fmt"
 
 	"github.com/ahmetb/go-linq/v3"
@@ -60,6 +61,10 @@ func (r *NodeManagement) handleMsgBindingData(message *api.Message) error {
 }
 
 func (r *NodeManagement) handleMsgBindingRequestCall(message *api.Message, data *model.NodeManagementBindingRequestCallType) error {
+	if data == nil || data.BindingRequest == nil {
+		return errors.New("nodemanagement.handleMsgBindingRequestCall: missing bindingRequest")
+	}
+
 	switch message.CmdClassifier {
 	case model.CmdClassifierTypeCall:
 		return r.Device().BindingManager().AddBinding(message.FeatureRemote.Device(), *data.BindingRequest)
@@ -70,6 +75,10 @@ func (r *NodeManagement) handleMsgBindingRequestCall(message *api.Message, data 
 }
 
 func (r *NodeManagement) handleMsgBindingDeleteCall(message *api.Message, data *model.NodeManagementBindingDeleteCallType) error {
+	if data == nil || data.BindingDelete == nil {
+		return errors.New("nodemanagement.handleMsgBindingDeleteCall: missing bindingDelete")
+	}
+
 	switch message.CmdClassifier {
 	case model.CmdClassifierTypeCall:
 		return r.Device().BindingManager().RemoveBinding(*data.BindingDelete, message.FeatureRemote.Device())
